@@ -274,6 +274,36 @@ pub fn run(tier: Tier) -> Report {
         let n = (pairs.len() * sizes.len()) as u64;
         n_three += n;
         rep.extra("colliding_size_triples", json!(n));
+        // and a predicted or disposable picture of size B directly after an intra picture of size A,
+        // with nothing coded (all skipped, or a bare header) or with vectors: whatever is accepted
+        // must have planes of its own size
+        pairs.par_iter().for_each(|&(a, b)| {
+            let (wb, hb) = sizes[b];
+            let (mbw, mbh) = mb_grid(wb, hb);
+            for ptype in [1u8, 2] {
+                for body in 0..3usize {
+                    let mut d = Dec::new(1);
+                    let first = encode_bytes(&coded_intra(shdr(sizes[a].0, sizes[a].1, 0, 0, 7, 0)));
+                    d.fed.push(first.clone());
+                    if !decode_bytes(&mut d.st, &first).is_ok() {
+                        continue;
+                    }
+                    let mbs: Vec<Mb> = match body {
+                        0 => (0..mbw * mbh).map(|_| Mb::NotCoded).collect(),
+                        1 => vec![],
+                        _ => (0..mbw * mbh).map(|i| if i % 2 == 0 { Mb::inter((1, -1)) } else { Mb::NotCoded }).collect(),
+                    };
+                    let bytes = encode_bytes(&Pic { hdr: shdr(wb, hb, ptype, 1, 7, 0), mbs });
+                    d.fed.push(bytes.clone());
+                    match decode_bytes(&mut d.st, &bytes) {
+                        Outcome::Panic(pm) => rep.violation(&panic_sig(&pm), format!("type-{ptype} picture {:?} (body {body}) after an intra picture {:?}: {pm}", sizes[b], sizes[a]), d.replay("predicted picture of a colliding size")),
+                        Outcome::Ok => post_process(&rep, &d.st, &format!("type-{ptype} picture {:?} (body {body}) accepted after an intra picture {:?}", sizes[b], sizes[a]), d.replay("predicted picture of a colliding size")),
+                        Outcome::Err(_) => {}
+                    }
+                }
+            }
+        });
+        n_three += 6 * pairs.len() as u64;
     }
     rep.add_transitions(3 * n_three);
     rep.add_states(n_three);
@@ -301,7 +331,7 @@ pub fn run(tier: Tier) -> Report {
     rep.add_transitions(std_cases.len() as u64);
     rep.add_states(std_cases.len() as u64);
     rep.set_rule(&format!(
-        "every size 1..={maxd} x 1..={maxd}: I pictures at every quantizer 1..31 (fully crossed for sizes <= 20x20, pairwise beyond), plus a P and a D picture per size, plus long/thin extras, every residue mod 16 above 256/512/1024, all pairs of the boundary lattice of dimensions (powers of two and their neighbours, 3*2^k, the named formats, 65535) under the pixel cap, every height / width up to 700 (thorough 1500) next to a fixed 24, prime sizes, one picture of more than 2^24 luma samples and one of more than 2^24 chroma samples, three-picture size histories, every ordered triple of 24 colliding sizes as intra pictures on one decoder, and standard-mode custom sizes: plane-size relations, then deblock(plane, row, QUANT_TO_STRENGTH[q]) on the three planes and yuv420_to_rgba on the result under catch_unwind; non-trivial = sizes with an odd dimension or fewer than 10 rows/columns"
+        "every size 1..={maxd} x 1..={maxd}: I pictures at every quantizer 1..31 (fully crossed for sizes <= 20x20, pairwise beyond), plus a P and a D picture per size, plus long/thin extras, every residue mod 16 above 256/512/1024, all pairs of the boundary lattice of dimensions (powers of two and their neighbours, 3*2^k, the named formats, 65535) under the pixel cap, every height / width up to 700 (thorough 1500) next to a fixed 24, prime sizes, one picture of more than 2^24 luma samples and one of more than 2^24 chroma samples, three-picture size histories, every ordered triple of 24 colliding sizes as intra pictures on one decoder, every ordered pair of them as an intra picture followed by a predicted / disposable picture with nothing coded or with vectors, and standard-mode custom sizes: plane-size relations, then deblock(plane, row, QUANT_TO_STRENGTH[q]) on the three planes and yuv420_to_rgba on the result under catch_unwind; non-trivial = sizes with an odd dimension or fewer than 10 rows/columns"
     ));
     rep.sample(json!({"size": [1, 1], "q": 31, "kind": "I"}));
     rep.sample(json!({"size": [17, 2], "q": 12, "kind": "D", "note": "chroma planes are one row high"}));
